@@ -407,6 +407,8 @@ func (db *SingleBucketBackend) PutObject(
 	// Replace rather than truncate: a reader that opened the previous object
 	// before this upload keeps reading the previous bytes.
 	if err := db.fs.Remove(objectFilePath); err != nil && !os.IsNotExist(err) {
+		// The directory chain may have been created just now:
+		removeEmptyDirs(db.fs, ".", filepath.ToSlash(objectDir))
 		return result, err
 	}
 
